@@ -24,9 +24,9 @@ THEOREMS = ['Vakt.C11.step_valid', 'Vakt.C11.any_backend_transparent', 'Vakt.C11
 EXTRA_IMPORTS = ['Props.Stack']
 # obligations over what was translated from /repo/vakt/storage/observable.py in this run: the mutating methods of the observable
 # wrapper call the wrapped storage and then notify exactly once (not at all when the call raised), the reading methods never notify
-# (lean/Gen/EquivEnfold.lean, against Backends.obsStep over the abstract store)
-EXTRA_BUILD = ['+Gen.EquivEnfold']
-GEN_IMPORTS = ['Gen.EquivEnfold']
+# (lean/Gen/EquivObservable.lean, against Backends.obsStep over the abstract store)
+EXTRA_BUILD = ['+Gen.EquivObservable']
+GEN_IMPORTS = ['Gen.EquivObservable']
 GEN_THEOREMS = ['Vakt.GenEquiv.gen_observable_add', 'Vakt.GenEquiv.gen_observable_update', 'Vakt.GenEquiv.gen_observable_delete',
                 'Vakt.GenEquiv.gen_observable_get', 'Vakt.GenEquiv.gen_observable_get_all']
 FLOOR = {'quick': 100, 'thorough': 1500}
